@@ -167,7 +167,10 @@ template <class T> static void cipher_suite(const char *cls, int fam, int alg)
           if (bad[i] == kl || (fam == 3 && bad[i] == 80)) continue;
           unsigned char junk[96]; memset(junk, 0x77, sizeof junk);
           if (o.set_key(junk, bad[i])) hx_fail(kb, "set_key with unsupported length %zu returned true", bad[i]);
-      } hx_stat("evaluations", 9); }
+      }
+      if (o.set_key(0, kl)) hx_fail(kb, "set_key(nullptr, full length) returned true");
+      /* refused keying calls leave the accepted key in force */
+      behaves_like(o, cls, "after-refused-set_key", fam, alg, K); hx_stat("evaluations", 9); }
 }
 /* objects built in storage that held other bytes: every constructor documents an all-zero nonce (and an all-zero key for the default constructor and a NULL key),
  * so the first packets without any set_nonce / set_counter must be the C results under nonce 0 and nonce 1 */
